@@ -94,7 +94,11 @@ func (fr *Frame) call(ins ssa.Instruction, c *ssa.CallCommon, st *State) []Term 
 		}
 	}
 	if fr.top || true {
-		e.callLog = append(e.callLog, &CallRec{Name: cx.name, Instr: ins, Results: rs, Args: cx.args, PC: st.pc, Block: fr.curBlock, Index: fr.curIdx})
+		tf := fr
+		for tf.parent != nil {
+			tf = tf.parent
+		}
+		e.callLog = append(e.callLog, &CallRec{Name: cx.name, Instr: ins, Results: rs, Args: cx.args, PC: st.pc, Block: tf.curBlock, Index: tf.curIdx, Depth: fr.depth})
 	}
 	return rs
 }
@@ -434,19 +438,19 @@ func (fr *Frame) appendCells(st *State, c string, boxed bool, fieldIdx int, s, x
 	vc := e.vc
 	old := e.get(st, c)
 	nw := vc.fresh("h", e.compSort[c])
-	cell := func(arr, i Term) Term {
-		l := fmt.Sprintf("(idx %s %s)", arr, i)
+	cell := func(sl, i Term) Term {
+		l := fmt.Sprintf("(sidx %s %s)", sl, i)
 		if boxed && fieldIdx >= 0 {
 			return fmt.Sprintf("(fld %s %d)", l, fieldIdx)
 		}
 		return l
 	}
 	// forall j in [0, len res): new[res[j]] = j < len s ? old[s[j]] : old[xs[j-len s]]
-	vc.assumeIf(st.pc, fmt.Sprintf("(forall ((j Int)) (! (=> (and (<= 0 j) (< j (s_len %s))) (= (select %s %s) (ite (< j (s_len %s)) (select %s %s) (select %s %s)))) :pattern ((select %s %s))))",
-		res, nw, cell(fmt.Sprintf("(s_arr %s)", res), fmt.Sprintf("(+ (s_off %s) j)", res)),
-		s, old, cell(fmt.Sprintf("(s_arr %s)", s), fmt.Sprintf("(+ (s_off %s) j)", s)),
-		old, cell(fmt.Sprintf("(s_arr %s)", xs), fmt.Sprintf("(+ (s_off %s) (- j (s_len %s)))", xs, s)),
-		nw, cell(fmt.Sprintf("(s_arr %s)", res), fmt.Sprintf("(+ (s_off %s) j)", res))))
+	vc.assumeIf(st.pc, fmt.Sprintf("(forall ((j Int)) (! (=> (and (<= 0 j) (< j (s_len %s))) (= (select %s %s) (ite (< j (s_len %s)) (select %s %s) (select %s %s)))) :pattern (%s)))",
+		res, nw, cell(res, "j"),
+		s, old, cell(s, "j"),
+		old, cell(xs, fmt.Sprintf("(- j (s_len %s))", s)),
+		cell(res, "j")))
 	// frame: everything that is not one of the appended cells keeps its value
 	var inRes Term
 	if boxed && fieldIdx >= 0 {
